@@ -127,3 +127,183 @@ Example toy_circuit_survives :
 Proof. vm_compute. reflexivity. Qed.
 Example names_premise_met : names_wf string (Power string (Dagger string (Custom string toy_def [])) (NFloat "0.5")).
 Proof. vm_compute. reflexivity. Qed.
+
+(* ---------------------------------------------------------------------------------------------------------------
+   The model functions above are what the code does: circuits/_serde.py (with Circuit.collect_custom_gate_definitions,
+   _innermost_gate, _operation_uses_custom_gate of _circuit.py and gate_is_parametric of _gates.py) is translated to
+   Gallina on every run (tr/tr_serde.py -> Gen/SerdeGen.v, over the gate dataclasses generated by tr/tr_gates.py in
+   Gen/GateModsGen.v; meaning of the Python building blocks in Serde/SerdeTrSupport.v) and the generated definitions
+   are proved to agree with the model (Serde/SerdeGenProofs.v).  [MS] / [ME] turn the model's abstract expressions,
+   print, sympify, free and expr_eqb into a world for the generated code; [emb_*] embed model objects into the generated
+   object types.  Serialiser: equality for all inputs (fuel = recursion depth available, enough for the nesting).
+   Deserialiser: [agrees]: wherever the model makes a claim (a value, KeyError, another Python exception) the
+   generated function returns exactly that; nothing is claimed where the model says EUnmodelled. *)
+Require Import OQ.Serde.SerdeTrSupport OQ.Gen.SerdeGen OQ.Serde.SerdeGenProofs.
+
+Theorem generated_gate_name_is_model : forall (expr : Type) print sympify free (g : gate expr),
+  OQ.Gen.GateModsGen.Gate_name_gen (emb_gate expr print sympify free g) = name_of expr g.
+Proof. exact name_gen_is_model. Qed.
+Print Assumptions generated_gate_name_is_model.
+
+Theorem generated_gate_free_symbols_is_model : forall (expr : Type) print sympify free (g : gate expr),
+  OQ.Gen.GateModsGen.Gate_free_symbols_gen (emb_gate expr print sympify free g) = gate_free expr free g.
+Proof. exact free_symbols_gen_is_model. Qed.
+Print Assumptions generated_gate_free_symbols_is_model.
+
+Theorem generated_to_dict_gate_is_model : forall (expr : Type) print sympify free expr_eqb (g : gate expr) fuel,
+  (gate_depth expr g < fuel)%nat ->
+  to_dict_gen (MS expr print sympify free) (ME expr print sympify free expr_eqb) fuel (Obj_Gate (emb_gate expr print sympify free g))
+  = Val (gate_to_json expr print free g).
+Proof. exact to_dict_gate_gen_is_model. Qed.
+Print Assumptions generated_to_dict_gate_is_model.
+
+Theorem generated_to_dict_operation_is_model : forall (expr : Type) print sympify free expr_eqb (op : operation expr) fuel,
+  (gate_depth expr (fst op) + 1 < fuel)%nat ->
+  to_dict_gen (MS expr print sympify free) (ME expr print sympify free expr_eqb) fuel (Obj_Operation (emb_pyop expr print sympify free op))
+  = Val (op_to_json expr print free op).
+Proof. exact to_dict_operation_gen_is_model. Qed.
+Print Assumptions generated_to_dict_operation_is_model.
+
+Theorem generated_to_dict_definition_is_model : forall (expr : Type) print sympify free expr_eqb (d : gdef expr) fuel,
+  (0 < fuel)%nat ->
+  to_dict_gen (MS expr print sympify free) (ME expr print sympify free expr_eqb) fuel
+              (Obj_CustomGateDefinition (emb_def expr print sympify free d))
+  = Val (def_to_json expr print d).
+Proof. exact to_dict_definition_gen_is_model. Qed.
+Print Assumptions generated_to_dict_definition_is_model.
+
+(* Circuit.collect_custom_gate_definitions: the conflict of two definitions under one name is the ValueError *)
+Theorem generated_collect_definitions_is_model : forall (expr : Type) print sympify free expr_eqb (c : circuit expr) fuel,
+  Forall (fun op => gate_depth expr (fst op) < fuel)%nat (c_ops expr c) ->
+  Circuit_collect_custom_gate_definitions_gen (MS expr print sympify free) (ME expr print sympify free expr_eqb) fuel
+    (emb_circ expr print sympify free c)
+  = match collect_custom_defs expr expr_eqb (c_ops expr c) with
+    | Some defs => Val (map (emb_def expr print sympify free) defs)
+    | None => Exn ValueError
+    end.
+Proof. exact collect_gen_is_model. Qed.
+Print Assumptions generated_collect_definitions_is_model.
+
+Theorem generated_to_dict_circuit_is_model : forall (expr : Type) print sympify free expr_eqb (c : circuit expr) fuel,
+  (ops_depth expr (c_ops expr c) + 2 < fuel)%nat ->
+  to_dict_gen (MS expr print sympify free) (ME expr print sympify free expr_eqb) fuel (Obj_Circuit (emb_circ expr print sympify free c))
+  = match circuit_to_json expr print free expr_eqb c with Some j => Val j | None => Exn ValueError end.
+Proof. exact to_dict_circuit_gen_is_model. Qed.
+Print Assumptions generated_to_dict_circuit_is_model.
+
+Theorem generated_to_dict_circuitset_is_model : forall (expr : Type) print sympify free expr_eqb (cs : list (circuit expr)) fuel,
+  (set_depth expr cs + 2 < fuel)%nat ->
+  to_dict_gen (MS expr print sympify free) (ME expr print sympify free expr_eqb) fuel
+              (Obj_list (map (emb_circ expr print sympify free) cs))
+  = match circuitset_to_json expr print free expr_eqb cs with Some j => Val j | None => Exn ValueError end.
+Proof. exact to_dict_circuitset_gen_is_model. Qed.
+Print Assumptions generated_to_dict_circuitset_is_model.
+
+(* _make_symbols_map on a list of names (the TypeError: a name and an indexed name with the same base, F16) and
+   deserialize_expr = sympify with that map *)
+Theorem generated_make_symbols_map_is_model : forall (expr : Type) print sympify free (names : list string),
+  make_symbols_map_gen (MS expr print sympify free) (JArr (map JStr names))
+  = match make_symbols_map names with Some m => Val (emb_symmap m) | None => Exn TypeError end.
+Proof. exact make_symbols_map_gen_is_model. Qed.
+Print Assumptions generated_make_symbols_map_is_model.
+
+Theorem generated_deserialize_expr_is_model : forall (expr : Type) print (sympify : symmap -> string -> option expr) free s syms,
+  deserialize_expr_gen (MS expr print sympify free) (JStr s) (JArr (map JStr syms))
+  = match make_symbols_map syms with
+    | Some m => match sympify m s with Some e => Val e | None => Exn SympyError end
+    | None => Exn TypeError
+    end.
+Proof. exact deserialize_expr_gen_is_model. Qed.
+Print Assumptions generated_deserialize_expr_is_model.
+
+Theorem generated_builtin_gate_from_dict_is_model : forall (expr : Type) print sympify free j,
+  agrees (emb_gate expr print sympify free) (builtin_gate_from_dict_gen (MS expr print sympify free) j)
+         (builtin_from_json expr (parse_via_map sympify) j).
+Proof. exact builtin_gate_from_dict_gen_agrees. Qed.
+Print Assumptions generated_builtin_gate_from_dict_is_model.
+
+Theorem generated_special_gate_from_dict_is_model : forall (expr : Type) print sympify free rec_g rec_m j defs,
+  (forall wj, agrees (emb_gate expr print sympify free) (rec_g wj (map (emb_def expr print sympify free) defs)) (rec_m wj)) ->
+  agrees (emb_gate expr print sympify free)
+         (special_gate_from_dict_gen (MS expr print sympify free) rec_g j (map (emb_def expr print sympify free) defs))
+         (special_from_json expr free rec_m j).
+Proof. exact special_gate_from_dict_gen_agrees. Qed.
+Print Assumptions generated_special_gate_from_dict_is_model.
+
+Theorem generated_custom_gate_instance_from_dict_is_model : forall (expr : Type) print sympify free j defs,
+  agrees (emb_gate expr print sympify free)
+         (custom_gate_instance_from_dict_gen (MS expr print sympify free) j (map (emb_def expr print sympify free) defs))
+         (custom_from_json expr (parse_via_map sympify) defs j).
+Proof. exact custom_gate_instance_from_dict_gen_agrees. Qed.
+Print Assumptions generated_custom_gate_instance_from_dict_is_model.
+
+(* _gate_from_dict with its KeyError fall-through, same fuel on both sides *)
+Theorem generated_gate_from_dict_is_model : forall (expr : Type) print sympify free fuel j defs,
+  agrees (emb_gate expr print sympify free)
+         (gate_from_dict_gen (MS expr print sympify free) fuel j (map (emb_def expr print sympify free) defs))
+         (gate_from_json expr (parse_via_map sympify) free fuel defs j).
+Proof. exact gate_from_dict_gen_agrees. Qed.
+Print Assumptions generated_gate_from_dict_is_model.
+
+Theorem generated_gate_operation_from_dict_is_model : forall (expr : Type) print sympify free fuel j defs,
+  agrees (emb_op expr print sympify free)
+         (gate_operation_from_dict_gen (MS expr print sympify free) fuel j (map (emb_def expr print sympify free) defs))
+         (op_from_json expr (parse_via_map sympify) free fuel defs j).
+Proof. exact gate_operation_from_dict_gen_agrees. Qed.
+Print Assumptions generated_gate_operation_from_dict_is_model.
+
+Theorem generated_custom_gate_def_from_dict_is_model : forall (expr : Type) print sympify free j,
+  agrees (emb_def expr print sympify free) (custom_gate_def_from_dict_gen (MS expr print sympify free) j)
+         (def_from_json expr (parse_via_map sympify) j).
+Proof. exact custom_gate_def_from_dict_gen_agrees. Qed.
+Print Assumptions generated_custom_gate_def_from_dict_is_model.
+
+(* any fuel from the depth of the dictionary on (the model takes exactly that depth) *)
+Theorem generated_circuit_from_dict_is_model : forall (expr : Type) print sympify free expr_eqb fuel j,
+  (jdepth j <= fuel)%nat ->
+  agrees (emb_circ expr print sympify free)
+         (circuit_from_dict_gen (MS expr print sympify free) (ME expr print sympify free expr_eqb) fuel j)
+         (circuit_from_json expr (parse_via_map sympify) free j).
+Proof. exact circuit_from_dict_gen_agrees. Qed.
+Print Assumptions generated_circuit_from_dict_is_model.
+
+Theorem generated_circuitset_from_dict_is_model : forall (expr : Type) print sympify free expr_eqb fuel j,
+  (jdepth j <= fuel)%nat ->
+  agrees (map (emb_circ expr print sympify free))
+         (circuitset_from_dict_gen (MS expr print sympify free) (ME expr print sympify free expr_eqb) fuel j)
+         (circuitset_from_json expr (parse_via_map sympify) free j).
+Proof. exact circuitset_from_dict_gen_agrees. Qed.
+Print Assumptions generated_circuitset_from_dict_is_model.
+
+(* hence the property about the generated code itself: what the generated to_dict writes for a well-formed circuit,
+   the generated circuit_from_dict reads back as the same circuit object *)
+Theorem generated_code_round_trips :
+  forall (expr : Type) (print : expr -> string) (sympify : symmap -> string -> option expr)
+         (free : expr -> list string) (idents_ok : list string -> bool),
+  (forall syms m e, make_symbols_map syms = Some m -> forallb (resolves m) syms = true ->
+                    idents_ok syms = true -> incl (free e) syms -> sympify m (print e) = Some e) ->
+  forall (expr_eqb : expr -> expr -> bool), (forall a b, expr_eqb a b = true -> a = b) ->
+  forall c j fuel fuel', circuit_wf expr free (syms_usable idents_ok) c ->
+  (ops_depth expr (c_ops expr c) + 2 < fuel)%nat -> (jdepth j <= fuel')%nat ->
+  to_dict_gen (MS expr print sympify free) (ME expr print sympify free expr_eqb) fuel
+              (Obj_Circuit (emb_circ expr print sympify free c)) = Val j ->
+  circuit_from_dict_gen (MS expr print sympify free) (ME expr print sympify free expr_eqb) fuel' j
+  = Val (emb_circ expr print sympify free c).
+Proof. exact generated_round_trip. Qed.
+Print Assumptions generated_code_round_trips.
+
+(* the generated functions run: the toy circuit is written by the generated to_dict exactly as by the model and read
+   back by the generated circuit_from_dict (shown through unemb_circ, the inverse of emb_circ) *)
+Example generated_functions_run :
+  match to_dict_gen (MS string toy_print toy_sympify toy_free) (ME string toy_print toy_sympify toy_free String.eqb) 6
+                    (Obj_Circuit (emb_circ string toy_print toy_sympify toy_free toy_circuit)) with
+  | Val j =>
+      circuit_to_json string toy_print toy_free String.eqb toy_circuit = Some j /\
+      match circuit_from_dict_gen (MS string toy_print toy_sympify toy_free)
+                                  (ME string toy_print toy_sympify toy_free String.eqb) (jdepth j) j with
+      | Val c => unemb_circ string toy_print toy_sympify toy_free c = toy_circuit
+      | Exn _ => False
+      end
+  | Exn _ => False
+  end.
+Proof. vm_compute. split; reflexivity. Qed.
